@@ -390,6 +390,25 @@ func drawStream(t *rapid.T, wname string, targets []string) streamCase {
 				specs = append(specs, pick(t, p, p.byBin[j][bins[k]], "bin"))
 			}
 		}
+	case "half": // a two-sided item whose Q-values all lie in one half of [0,1] (evenly spread over k bins): the Q histogram fails the
+		// uniformity criterion while the histogram of the corresponding P-values = 2 min(Q, 1-Q) looks fine (P/Q mix-ups)
+		twoSided := []int{0, 4, 7, 8}
+		if w.Items == 15 {
+			twoSided = append(twoSided, 13, 14)
+		}
+		j := rapid.SampledFrom(twoSided).Draw(t, "item")
+		k := 3
+		if w.S >= 50 {
+			k = rapid.IntRange(4, 5).Draw(t, "halfbins")
+		}
+		upper := rapid.Bool().Draw(t, "upper_half")
+		for i := 0; i < w.S; i++ {
+			b := i % k
+			if upper {
+				b = 9 - b
+			}
+			specs = append(specs, pick(t, p, p.byBin[j][b], "half"))
+		}
 	case "mixed": // item i fails only the uniformity criterion, a later item j > i fails only the pass count: which one is named?
 		i := rapid.IntRange(0, w.Items-2).Draw(t, "item_uniformity")
 		j := rapid.IntRange(i+1, w.Items-1).Draw(t, "item_passcount")
